@@ -102,6 +102,10 @@ def step (line : String) : String :=
      | some (n :: r :: loc) =>
        showList ((List.range (r ^ n)).map (permFromLocation n r loc))
      | _ => "bad-op")
+  | ["genswap" :: ts] =>
+    (match nats ts with
+     | some [r] => showList ((List.range (r * r)).map (genSwapRow r))
+     | _ => "bad-op")
   | ["permspec" :: ts] =>
     (match nats ts with
      | some (n :: r :: loc) =>
